@@ -10,6 +10,7 @@ import (
 	"github.com/opsidian/parsley/ast"
 	"github.com/opsidian/parsley/ast/interpreter"
 	"github.com/opsidian/parsley/combinator"
+	"github.com/opsidian/parsley/data"
 	"github.com/opsidian/parsley/parser"
 	"github.com/opsidian/parsley/parsley"
 	"github.com/opsidian/parsley/text"
@@ -38,6 +39,9 @@ type c10tok struct {
 	AltAny   bool   `json:"alternatives_with_any,omitempty"`
 	// AltOut: the two operators are alternatives of ONE Choice/Any and the left trim is around it
 	AltOut bool `json:"trim_around_the_alternatives,omitempty"`
+	// Wrap: the (trimmed) token parser sits inside a hand-written parser that adds context to its operand's error the
+	// usual Go way - parsley.NewErrorf(err.Pos(), "in statement: %w", err) - and passes results through
+	Wrap bool `json:"error_wrapped_by_a_user_parser,omitempty"`
 }
 
 var c10kinds = []struct{ kind, text string }{
@@ -88,7 +92,7 @@ func c10lexeme(in string, x int, t c10tok) int {
 var c10parsers = map[string]parsley.Parser{}
 
 func c10parser(t c10tok) parsley.Parser {
-	key := fmt.Sprint(t.Kind, "|", t.Text, "|", t.Left, t.Right, t.Trim, t.Inner, "|", t.Alt, t.AltFirst, t.AltAny, t.AltOut)
+	key := fmt.Sprint(t.Kind, "|", t.Text, "|", t.Left, t.Right, t.Trim, t.Inner, "|", t.Alt, t.AltFirst, t.AltAny, t.AltOut, t.Wrap)
 	if p, ok := c10parsers[key]; ok {
 		return p
 	}
@@ -98,6 +102,18 @@ func c10parser(t c10tok) parsley.Parser {
 }
 
 func c10build(t c10tok) parsley.Parser {
+	if t.Wrap {
+		u := t
+		u.Wrap = false
+		inner := c10parser(u)
+		return parser.Func(func(ctx *parsley.Context, lrc data.IntMap, pos parsley.Pos) (parsley.Node, data.IntSet, parsley.Error) {
+			n, cp, err := inner.Parse(ctx, lrc, pos)
+			if err != nil {
+				err = parsley.NewErrorf(err.Pos(), "in statement: %w", err)
+			}
+			return n, cp, err
+		})
+	}
 	if t.Alt != "" && t.AltOut {
 		ps := []parsley.Parser{terminal.Op(t.Text), terminal.Op(t.Alt)}
 		if t.AltFirst {
@@ -158,6 +174,13 @@ func c10build(t c10tok) parsley.Parser {
 
 type c10span struct{ s, e int }
 
+func c10wrapPrefix(t c10tok) string {
+	if t.Wrap {
+		return "in statement: "
+	}
+	return ""
+}
+
 // c10simulate: expected outcome of the layout. errText "" = success, "TOKEN" = the token
 // sequence itself is ill-formed at some point (totality only), else the exact error text.
 // c10simulateEnd continues the simulation with LeftTrim(parser.End(), mode) as the last element of the sequence
@@ -188,7 +211,7 @@ func c10simulate(in string, toks []c10tok) (errText string, spans []c10span, x i
 			}
 			if errAt >= 0 {
 				l, cl := lineCol(in, errAt)
-				return fmt.Sprintf("failed to parse the input: %s at f:%d:%d", msg, l, cl), spans, x
+				return fmt.Sprintf("failed to parse the input: %s%s at f:%d:%d", c10wrapPrefix(t), msg, l, cl), spans, x
 			}
 			x = end
 		} else if c10lexeme(in, x, t) != len(t.Text) {
@@ -201,7 +224,7 @@ func c10simulate(in string, toks []c10tok) (errText string, spans []c10span, x i
 			end, errAt, msg := specSkipWs(c, x, right)
 			if errAt >= 0 {
 				l, cl := lineCol(in, errAt)
-				return fmt.Sprintf("failed to parse the input: %s at f:%d:%d", msg, l, cl), spans, x
+				return fmt.Sprintf("failed to parse the input: %s%s at f:%d:%d", c10wrapPrefix(t), msg, l, cl), spans, x
 			}
 			x = end
 			e = end
@@ -303,6 +326,9 @@ func c10exec(j run.Job, a *run.Acc) {
 			}
 			if t.Alt != "" {
 				t.Right, t.Trim = -1, false // (after the family-specific mode choices above)
+			}
+			if r.Intn(7) == 0 && !t.Trim {
+				t.Wrap = true
 			}
 			toks = append(toks, t)
 			raw.WriteString(gap())
@@ -684,7 +710,7 @@ func init() {
 		},
 		Exec: c10exec,
 		Finish: func(tier string, a *run.Acc, cov map[string]any) string {
-			cov["rule"] = "case = 1-4 tokens (Op, Word, Integer, String terminals; a fifth of the operators are Choice/Any of two operators trimmed INSIDE the alternatives), each independently wrapped in LeftTrim(mode)|none and RightTrim(mode)|none in both nesting orders, or text.Trim, " +
+			cov["rule"] = "case = 1-4 tokens (Op, Word, Integer, String terminals; a fifth of the operators are Choice/Any of two operators trimmed INSIDE the alternatives or around them; one token in seven sits inside a hand-written parser that wraps its errors with %w), each independently wrapped in LeftTrim(mode)|none and RightTrim(mode)|none in both nesting orders, or text.Trim, " +
 				"with a whitespace string (space, tab, LF, FF, CRLF mixtures, or empty) in every gap incl. before the first and after the last token; root Sentence(SeqOf(...)); " +
 				"also Many/SepBy over a trimmed token; file placed after 0-2 other files, one case in 12 beyond a file of 64 KiB ... 2^40 bytes; family scale: 300-3000 tokens, or whitespace runs of 100-40000 bytes (CRLF-heavy) in the gaps, half of these inputs written to disk and loaded with text.ReadFile. Oracle: byte-level simulation: each trimming parser sees the maximal run where it is invoked; " +
 				"the first failing check in parse order gives the exact expected text 'failed to parse the input: <mode message> at f:L:C' (start of run / first line break / end of run); " +
